@@ -27,7 +27,7 @@ thm_tab = "\n".join(theorems)
 hooks = subprocess.run("cd /repo && git log --oneline | grep 'verif hooks'", shell=True, capture_output=True, text=True).stdout.strip().split("\n")
 hook_tab = "\n".join("  * `%s` %s" % (h.split()[0], ' '.join(h.split()[1:])) for h in reversed(hooks))
 body = open('/verif/tools/design_asbuilt.md').read()
-sec = body.replace("@@THM@@", thm_tab).replace("@@HOOKS@@", hook_tab).replace("@@SEEDS@@", seed_table).replace("@@FIXED@@", fixed_tab).replace("@@OPENKF@@", open_kf)
+sec = body.replace("@@THM@@", thm_tab).replace("@@HOOKS@@", hook_tab).replace("@@SEEDS@@", seed_table).replace("@@FIXED@@", fixed_tab).replace("@@OPENKF@@", open_kf).replace("@@NSEEDS@@", str(len(rows)))
 s = open('/verif/DESIGN.md').read()
 MARK = "## 10. As built"
 SEP = "-" * 98
